@@ -1,6 +1,38 @@
--- shard 3 of the closeness / tick-gap sweep (C06 (c), (e)): |tick| in [98304, 131072)
+-- shard 3 of the closeness / tick-gap sweep (C06 (c), (e)): |tick| in [98304, 131072), 16 blocks of 2^11
 import Proofs.Lemmas.ClosePred
 namespace Demeter.TickClose
 set_option maxRecDepth 100000 in
-theorem close_shard_03 : chkN closeSweepPred 98304 shardBits = true := by decide +kernel
+theorem close_blk_98304 : chkN closeSweepPred 98304 11 = true := by decide +kernel
+set_option maxRecDepth 100000 in
+theorem close_blk_100352 : chkN closeSweepPred 100352 11 = true := by decide +kernel
+set_option maxRecDepth 100000 in
+theorem close_blk_102400 : chkN closeSweepPred 102400 11 = true := by decide +kernel
+set_option maxRecDepth 100000 in
+theorem close_blk_104448 : chkN closeSweepPred 104448 11 = true := by decide +kernel
+set_option maxRecDepth 100000 in
+theorem close_blk_106496 : chkN closeSweepPred 106496 11 = true := by decide +kernel
+set_option maxRecDepth 100000 in
+theorem close_blk_108544 : chkN closeSweepPred 108544 11 = true := by decide +kernel
+set_option maxRecDepth 100000 in
+theorem close_blk_110592 : chkN closeSweepPred 110592 11 = true := by decide +kernel
+set_option maxRecDepth 100000 in
+theorem close_blk_112640 : chkN closeSweepPred 112640 11 = true := by decide +kernel
+set_option maxRecDepth 100000 in
+theorem close_blk_114688 : chkN closeSweepPred 114688 11 = true := by decide +kernel
+set_option maxRecDepth 100000 in
+theorem close_blk_116736 : chkN closeSweepPred 116736 11 = true := by decide +kernel
+set_option maxRecDepth 100000 in
+theorem close_blk_118784 : chkN closeSweepPred 118784 11 = true := by decide +kernel
+set_option maxRecDepth 100000 in
+theorem close_blk_120832 : chkN closeSweepPred 120832 11 = true := by decide +kernel
+set_option maxRecDepth 100000 in
+theorem close_blk_122880 : chkN closeSweepPred 122880 11 = true := by decide +kernel
+set_option maxRecDepth 100000 in
+theorem close_blk_124928 : chkN closeSweepPred 124928 11 = true := by decide +kernel
+set_option maxRecDepth 100000 in
+theorem close_blk_126976 : chkN closeSweepPred 126976 11 = true := by decide +kernel
+set_option maxRecDepth 100000 in
+theorem close_blk_129024 : chkN closeSweepPred 129024 11 = true := by decide +kernel
+theorem close_shard_03 : chkN closeSweepPred 98304 shardBits = true :=
+  (chkN_join _ 98304 14 (chkN_join _ 98304 13 (chkN_join _ 98304 12 (chkN_join _ 98304 11 close_blk_98304 close_blk_100352) (chkN_join _ 102400 11 close_blk_102400 close_blk_104448)) (chkN_join _ 106496 12 (chkN_join _ 106496 11 close_blk_106496 close_blk_108544) (chkN_join _ 110592 11 close_blk_110592 close_blk_112640))) (chkN_join _ 114688 13 (chkN_join _ 114688 12 (chkN_join _ 114688 11 close_blk_114688 close_blk_116736) (chkN_join _ 118784 11 close_blk_118784 close_blk_120832)) (chkN_join _ 122880 12 (chkN_join _ 122880 11 close_blk_122880 close_blk_124928) (chkN_join _ 126976 11 close_blk_126976 close_blk_129024))))
 end Demeter.TickClose
